@@ -315,63 +315,72 @@ theorem recOK_ascii_all (m : Model) (e : Enc) (he : e.ebcdic = false) (k : Kind)
   · exact recOK_ascii_key m e he k hk v hc
   · exact recOK_ascii_iv m e he k hk v hc
 
-/-- every record of an item is canonical -/
-def CanonItem (m : Model) (isCheck : Bool) (it : Item Vals) : Prop :=
-  RecCanon m (if isCheck then .checkDetail else .returnDetail) it.detail ∧
-  (∀ v ∈ it.addA, RecCanon m (if isCheck then .cdAddA else .rdAddA) v) ∧
-  (∀ v ∈ it.addB, RecCanon m (if isCheck then .cdAddB else .rdAddB) v) ∧
-  (∀ v ∈ it.addC, RecCanon m (if isCheck then .cdAddC else .rdAddC) v) ∧
-  (∀ v ∈ it.addD, RecCanon m .rdAddD v) ∧
-  (∀ v ∈ it.ivDetail, RecCanon m .ivDetail v) ∧ (∀ v ∈ it.ivData, RecCanon m .ivData v) ∧
-  (∀ v ∈ it.ivAnalysis, RecCanon m .ivAnalysis v)
+/-- every record of an item satisfies `P` -/
+def ItemAll (P : Kind → Vals → Prop) (isCheck : Bool) (it : Item Vals) : Prop :=
+  P (if isCheck then .checkDetail else .returnDetail) it.detail ∧
+  (∀ v ∈ it.addA, P (if isCheck then .cdAddA else .rdAddA) v) ∧
+  (∀ v ∈ it.addB, P (if isCheck then .cdAddB else .rdAddB) v) ∧
+  (∀ v ∈ it.addC, P (if isCheck then .cdAddC else .rdAddC) v) ∧
+  (∀ v ∈ it.addD, P .rdAddD v) ∧
+  (∀ v ∈ it.ivDetail, P .ivDetail v) ∧ (∀ v ∈ it.ivData, P .ivData v) ∧
+  (∀ v ∈ it.ivAnalysis, P .ivAnalysis v)
 
-theorem itemOK_of_canon (m : Model) (e : Enc) (he : e.ebcdic = false) (hK : ∀ k, KindOK m k = true)
-    (isCheck : Bool) (it : Item Vals) (h : CanonItem m isCheck it) :
-    ItemOK m e (fun k v => lineOf m k (some v)) isCheck it := by
+theorem itemOK_of_all (m : Model) (e : Enc) (ln : Kind → Vals → Bytes) (P : Kind → Vals → Prop)
+    (hrec : ∀ k v, P k v → RecOK m e ln k v) (isCheck : Bool) (it : Item Vals) (h : ItemAll P isCheck it) :
+    ItemOK m e ln isCheck it := by
   obtain ⟨h1, h2, h3, h4, h5, h6, h7, h8⟩ := h
-  exact ⟨recOK_ascii_all m e he _ (hK _) _ h1, fun v hv => recOK_ascii_all m e he _ (hK _) _ (h2 v hv),
-    fun v hv => recOK_ascii_all m e he _ (hK _) _ (h3 v hv), fun v hv => recOK_ascii_all m e he _ (hK _) _ (h4 v hv),
-    fun v hv => recOK_ascii_all m e he _ (hK _) _ (h5 v hv), fun v hv => recOK_ascii_all m e he _ (hK _) _ (h6 v hv),
-    fun v hv => recOK_ascii_all m e he _ (hK _) _ (h7 v hv), fun v hv => recOK_ascii_all m e he _ (hK _) _ (h8 v hv)⟩
+  exact ⟨hrec _ _ h1, fun v hv => hrec _ _ (h2 v hv), fun v hv => hrec _ _ (h3 v hv), fun v hv => hrec _ _ (h4 v hv),
+    fun v hv => hrec _ _ (h5 v hv), fun v hv => hrec _ _ (h6 v hv), fun v hv => hrec _ _ (h7 v hv),
+    fun v hv => hrec _ _ (h8 v hv)⟩
 
 /-- a bundle in canonical form: header and control present, forward items or returns (not both), the
-container-level validation of the reader passes, every record canonical -/
-structure CanonBundle (m : Model) (b : Bundle Vals) : Prop where
-  hdr : ∃ h, b.header = some h ∧ RecCanon m .bundleHeader h
-  ctl : ∃ c, b.control = some c ∧ RecCanon m .bundleControl c
+container-level validation of the reader passes, every record satisfies `P` -/
+structure BundleAll (P : Kind → Vals → Prop) (b : Bundle Vals) : Prop where
+  hdr : ∃ h, b.header = some h ∧ P .bundleHeader h
+  ctl : ∃ c, b.control = some c ∧ P .bundleControl c
   oneKind : b.checks = [] ∨ b.returns = []
   valid : bundleValidate b = none
-  checks : ∀ it ∈ b.checks, CanonItem m true it ∧ ItemWF true it
-  returns : ∀ it ∈ b.returns, CanonItem m false it ∧ ItemWF false it
+  checks : ∀ it ∈ b.checks, ItemAll P true it ∧ ItemWF true it
+  returns : ∀ it ∈ b.returns, ItemAll P false it ∧ ItemWF false it
 
-theorem bundleOK_of_canon (m : Model) (e : Enc) (he : e.ebcdic = false) (hK : ∀ k, KindOK m k = true)
-    (b : Bundle Vals) (h : CanonBundle m b) : BundleOK m e (fun k v => lineOf m k (some v)) b where
-  hdr := by obtain ⟨x, hx, hc⟩ := h.hdr; exact ⟨x, hx, recOK_ascii_all m e he _ (hK _) _ hc⟩
-  ctl := by obtain ⟨x, hx, hc⟩ := h.ctl; exact ⟨x, hx, recOK_ascii_all m e he _ (hK _) _ hc⟩
+theorem bundleOK_of_all (m : Model) (e : Enc) (ln : Kind → Vals → Bytes) (P : Kind → Vals → Prop)
+    (hrec : ∀ k v, P k v → RecOK m e ln k v) (b : Bundle Vals) (h : BundleAll P b) : BundleOK m e ln b where
+  hdr := by obtain ⟨x, hx, hc⟩ := h.hdr; exact ⟨x, hx, hrec _ _ hc⟩
+  ctl := by obtain ⟨x, hx, hc⟩ := h.ctl; exact ⟨x, hx, hrec _ _ hc⟩
   oneKind := h.oneKind
   valid := h.valid
-  checks := fun it hit => ⟨itemOK_of_canon m e he hK true it (h.checks it hit).1, (h.checks it hit).2⟩
-  returns := fun it hit => ⟨itemOK_of_canon m e he hK false it (h.returns it hit).1, (h.returns it hit).2⟩
+  checks := fun it hit => ⟨itemOK_of_all m e ln P hrec true it (h.checks it hit).1, (h.checks it hit).2⟩
+  returns := fun it hit => ⟨itemOK_of_all m e ln P hrec false it (h.returns it hit).1, (h.returns it hit).2⟩
 
-structure CanonCashLetter (m : Model) (cl : CashLetter Vals) : Prop where
-  hdr : ∃ h, cl.header = some h ∧ RecCanon m .cashLetterHeader h
-  ctl : ∃ c, cl.control = some c ∧ RecCanon m .cashLetterControl c
+structure CashLetterAll (m : Model) (P : Kind → Vals → Prop) (cl : CashLetter Vals) : Prop where
+  hdr : ∃ h, cl.header = some h ∧ P .cashLetterHeader h
+  ctl : ∃ c, cl.control = some c ∧ P .cashLetterControl c
   rnsSome : ∀ r ∈ cl.rns, r.isSome = true
   valid : cashLetterValidate m cl = none
-  creditItems : ∀ v ∈ cl.creditItems, RecCanon m .creditItem v
-  credits : ∀ v ∈ cl.credits, RecCanon m .credit v
-  rns : ∀ v ∈ cl.rns.filterMap id, RecCanon m .rns v
-  bundles : ∀ b ∈ cl.bundles, CanonBundle m b
+  creditItems : ∀ v ∈ cl.creditItems, P .creditItem v
+  credits : ∀ v ∈ cl.credits, P .credit v
+  rns : ∀ v ∈ cl.rns.filterMap id, P .rns v
+  bundles : ∀ b ∈ cl.bundles, BundleAll P b
 
-theorem cashLetterOK_of_canon (m : Model) (e : Enc) (he : e.ebcdic = false) (hK : ∀ k, KindOK m k = true)
-    (cl : CashLetter Vals) (h : CanonCashLetter m cl) : CashLetterOK m e (fun k v => lineOf m k (some v)) cl where
-  hdr := by obtain ⟨x, hx, hc⟩ := h.hdr; exact ⟨x, hx, recOK_ascii_all m e he _ (hK _) _ hc⟩
-  ctl := by obtain ⟨x, hx, hc⟩ := h.ctl; exact ⟨x, hx, recOK_ascii_all m e he _ (hK _) _ hc⟩
+theorem cashLetterOK_of_all (m : Model) (e : Enc) (ln : Kind → Vals → Bytes) (P : Kind → Vals → Prop)
+    (hrec : ∀ k v, P k v → RecOK m e ln k v) (cl : CashLetter Vals) (h : CashLetterAll m P cl) :
+    CashLetterOK m e ln cl where
+  hdr := by obtain ⟨x, hx, hc⟩ := h.hdr; exact ⟨x, hx, hrec _ _ hc⟩
+  ctl := by obtain ⟨x, hx, hc⟩ := h.ctl; exact ⟨x, hx, hrec _ _ hc⟩
   rnsSome := h.rnsSome
   valid := h.valid
-  creditItems := fun v hv => recOK_ascii_all m e he _ (hK _) _ (h.creditItems v hv)
-  credits := fun v hv => recOK_ascii_all m e he _ (hK _) _ (h.credits v hv)
-  rns := fun v hv => recOK_ascii_all m e he _ (hK _) _ (h.rns v hv)
-  bundles := fun b hb => bundleOK_of_canon m e he hK b (h.bundles b hb)
+  creditItems := fun v hv => hrec _ _ (h.creditItems v hv)
+  credits := fun v hv => hrec _ _ (h.credits v hv)
+  rns := fun v hv => hrec _ _ (h.rns v hv)
+  bundles := fun b hb => bundleOK_of_all m e ln P hrec b (h.bundles b hb)
+
+/-- every record canonical -/
+abbrev CanonItem (m : Model) := ItemAll (RecCanon m)
+abbrev CanonBundle (m : Model) := BundleAll (RecCanon m)
+abbrev CanonCashLetter (m : Model) := CashLetterAll m (RecCanon m)
+
+theorem cashLetterOK_of_canon (m : Model) (e : Enc) (he : e.ebcdic = false) (hK : ∀ k, KindOK m k = true)
+    (cl : CashLetter Vals) (h : CanonCashLetter m cl) : CashLetterOK m e (fun k v => lineOf m k (some v)) cl :=
+  cashLetterOK_of_all m e _ (RecCanon m) (fun k v hc => recOK_ascii_all m e he k (hK k) v hc) cl h
 
 end Icl.C01
